@@ -54,8 +54,12 @@ CORE_FORMS = ('auto', 'list', 'tuple')
 COMBS = ('add', 'radd', 'sub', 'concat', 'rstack', 'vec', 'idxadd', 'abs+', '+abs', 'norm+', 'sq+', 'exp+',
          'mulz+', '+mulz', 'add3', 'scale+')
 MASK_SPECS_Q = [('ro', 'z3', 2), ('ro', 'z2w', 2), ('ro', 'z2', 1), ('ro', 'wz2', 2),
-                ('dro1', 'z3', 2), ('dro2', 'z2w', 2), ('dro2', 'z2', 2), ('dro1', 'z2', 1)]
-MASK_SPECS_T = MASK_SPECS_Q + [('ro', 'z2', 2), ('ro', 'z1', 2), ('dro2', 'z3', 2), ('dro1', 'wz2', 2), ('dro3', 'z2', 2)]
+                ('dro1', 'z3', 2), ('dro2', 'z2w', 2), ('dro2', 'z2', 2), ('dro1', 'z2', 1), ('dro3', 'z2', 2)]
+MASK_SPECS_T = MASK_SPECS_Q + [('ro', 'z2', 2), ('ro', 'z1', 2), ('dro2', 'z3', 2), ('dro1', 'wz2', 2), ('dro3', 'z2w', 2)]
+# an extra decision with a *different* event partition declared before / after the adaptive one (the adaptive decision
+# has the partition {0..S-2},{S-1}): static, finer (all singletons), other ({0},{1..S-1})
+AUX_VARIANTS = {1: ('none',), 2: ('none', 'static', 'static-before'),
+                3: ('none', 'static', 'finer', 'other', 'finer-before', 'other-before')}
 RO_USES = ('to_affine', 'add', 'radd', 'neg', 'mul', 'matmul', 'sub_add', 'le', 'ge', 'eq', 'st', 'T', 'sum', 'min',
            'reshape')
 RO_NONUSES = ('getitem', 'shape')
@@ -132,12 +136,17 @@ def _gen_all(tier, seed):
         max_len = 4 if (th and nrows * d <= 6) else 3
         if nrows * d <= 4:
             max_len = 4
+        auxs = AUX_VARIANTS[int(fe[3:])] if fe != 'ro' else ('none',)
         for seq in P.disjoint_rect_sequences(nrows, d, max_len):
             styles = ('nat', 'idx') if len(seq) == 1 else ('nat',)
             for st in styles:
                 for pl in (pals if len(seq) <= 1 else (pal,)):
-                    yield {'fam': 'mask', 'fe': fe, 'rl': rl, 'rows': nrows, 'seq': [[r, c] for r, c in seq],
-                           'style': st, 'pal': pl}
+                    for aux in auxs:
+                        case = {'fam': 'mask', 'fe': fe, 'rl': rl, 'rows': nrows, 'seq': [[r, c] for r, c in seq],
+                                'style': st, 'pal': pl}
+                        if aux != 'none':
+                            case['aux'] = aux
+                        yield case
     for fe, rl, nrows in (('ro', 'z3', 2), ('dro1', 'z3', 2), ('ro', 'z2w', 2), ('dro2', 'z2w', 2), ('ro', 'z2', 1),
                           ('dro1', 'z2', 1)):
         d = sum(max(s, 1) for s in RAND_LAYOUTS[rl])
@@ -400,6 +409,15 @@ def _mask_palette(nrows, d, pal):
     return base, a
 
 
+def _aux_adapt(v, aux, S):
+    kind = aux.split('-')[0]
+    if kind == 'finer':
+        for s_ in range(1, S):
+            v.adapt(s_)
+    elif kind == 'other':
+        v.adapt(0)
+
+
 def _run_mask(case):
     """Declared dependency mask of an ro decision rule / a dro affinely adaptive (event-wise) decision.
 
@@ -418,6 +436,10 @@ def _run_mask(case):
     is_ro = fe == 'ro'
     S = 1 if is_ro else int(fe[3:])
     tag = 'mask|%s|%s' % ('ro' if is_ro else 'dro', 'scalar' if nrows == 1 else 'vector')
+    aux = case.get('aux', 'none')
+    auxv = None
+    if aux != 'none':
+        tag += '|extra %s decision declared %s' % (aux.split('-')[0], 'before' if aux.endswith('-before') else 'after')
     mirrors = []
     if is_ro:
         m = _rs['ro'].Model()
@@ -431,6 +453,10 @@ def _run_mask(case):
         pre = m.dvar(2)
         rvars = Bd.make_rvars(m, rl)
         mirrors = [((m.rvar() if rv.shape == () else m.rvar(rv.shape)), comps) for rv, comps in rvars]
+        if aux.endswith('-before'):
+            auxv = m.dvar()
+            _aux_adapt(auxv, aux, S)
+            ops(2)
         y = m.dvar() if nrows == 1 else m.dvar(nrows)
         hist = [[S - 1]] if S >= 2 else []
         part = P.declared_partition(hist, S)
@@ -440,6 +466,10 @@ def _run_mask(case):
     if not is_ro and S >= 2:
         y.adapt(S - 1)
         tau.adapt(S - 1)          # the residual bound is event-wise too, so every event is pinned on its own
+        ops(2)
+    if aux != 'none' and not aux.endswith('-before'):
+        auxv = m.dvar()           # the LAST declared decision has another partition than the adaptive one
+        _aux_adapt(auxv, aux, S)
         ops(2)
     ops(4 + 2 * len(rvars))
     width = d if is_ro else 2 * d
@@ -486,7 +516,11 @@ def _run_mask(case):
                 ops()
             pr, _ = P.palette_pd(S, case['pal'])
             fset.probset(m.p == pr)
-            m.minsup(_rs['E'](tau.sum() if nrows > 1 else tau), fset)
+            obj = tau.sum() if nrows > 1 else tau
+            if auxv is not None:
+                obj = obj + auxv
+                m.st(auxv >= 1.0)
+            m.minsup(_rs['E'](obj), fset)
         m.st(tau >= y - t, tau >= t - y, pre == np.array([1.0, 2.0]))
         ops(5)
         m.solve(display=False)
@@ -498,7 +532,7 @@ def _run_mask(case):
     if is_ro:
         want_obj = float(np.abs(B[mask == 0]).sum())
     else:
-        want_obj = float(np.dot(pr, fac) * np.abs(B[mask == 0]).sum())
+        want_obj = float(np.dot(pr, fac) * np.abs(B[mask == 0]).sum()) + (1.0 if auxv is not None else 0.0)
     got = float(m.get())
     ops()
     if not _close(got, want_obj):
